@@ -51,6 +51,7 @@ package tlb
 
 import (
 	"bytes"
+	"crypto/sha256"
 	"fmt"
 	"math/bits"
 	"math/rand"
@@ -73,6 +74,12 @@ type c18bEnv struct {
 
 func newC18bEnv(name string, known ...string) *c18bEnv {
 	return &c18bEnv{fails: newVhFailures(known...), stat: newVhStat(name), unaskedCause: "rc_unasked_cell_pruned"}
+}
+
+// count records one executed case; the description is reduced to a 128-bit digest to keep the set of distinct cases small.
+func (e *c18bEnv) count(desc string) {
+	d := sha256.Sum256([]byte(desc))
+	e.stat.add(string(d[:16]))
 }
 
 func (e *c18bEnv) finish(t *testing.T, needTwins bool) {
@@ -448,7 +455,7 @@ func c18bRunDict[K fixedSize, V any](e *c18bEnv, o c18bDictOpts, name string, ke
 	for i, k := range keys {
 		kbits := c18bKeyBits(k)
 		kw := fmt.Sprintf("%s; prove key #%d (%s)", what, i, c18bBitsHex(kbits))
-		e.stat.add(kw)
+		e.count(kw)
 		leafBits, childBits := enc(vals[i])
 		w0, err := c18Walk(dict, kbits)
 		if err != nil || !w0.found || !reflect.DeepEqual(w0.value, leafBits) {
@@ -514,7 +521,7 @@ func c18bRunDict[K fixedSize, V any](e *c18bEnv, o c18bDictOpts, name string, ke
 	for _, k := range absent {
 		kbits := c18bKeyBits(k)
 		kw := fmt.Sprintf("%s; absent key %s", what, c18bBitsHex(kbits))
-		e.stat.add(kw)
+		e.count(kw)
 		if w, err := c18Walk(dict, kbits); err != nil || w.found {
 			e.fails.add("rc_harness", "%s: key is not absent (%v)", kw, err)
 			continue
@@ -793,7 +800,7 @@ func c18bPositions(root *boc.Cell, limit int) [][]int {
 
 // c18bRunCursor asks for the given positions to be pruned and checks the proof.
 func (e *c18bEnv) runCursor(what string, tree *boc.Cell, asked [][]int) {
-	e.stat.add(what)
+	e.count(what)
 	defer func() {
 		if r := recover(); r != nil {
 			e.fails.add("rc_panic", "%s: panic: %v", what, r)
